@@ -94,3 +94,60 @@ func VerifGatewayInjectTransaction(v *visor.Visor, txn coin.Transaction) error {
 	dm := &Daemon{visor: v}
 	return dm.InjectTransaction(txn)
 }
+
+// ---- C33 part F: the real Daemon between the block messages and the peers ----
+
+// VerifFanoutDaemon returns a Daemon with a real Visor, a fresh Connections and a real gnet pool run offline.
+func VerifFanoutDaemon(v *visor.Visor) (dm *Daemon, stop func()) {
+	gcfg := gnet.NewConfig()
+	gcfg.ConnectionWriteQueueSize = 64
+	gpool, err := gnet.NewConnectionPool(gcfg, nil)
+	if err != nil {
+		panic(err)
+	}
+	done := make(chan struct{})
+	go func() {
+		defer close(done)
+		gpool.RunOffline() //nolint:errcheck
+	}()
+	dm = &Daemon{
+		config:      DaemonConfig{IPCountsMax: 1000, Mirror: 99, ProtocolVersion: 2, GetBlocksRequestCount: 20, MaxOutgoingMessageLength: 256 * 1024},
+		pool:        &Pool{Pool: gpool},
+		visor:       v,
+		connections: NewConnections(),
+		events:      make(chan interface{}, 64),
+	}
+	return dm, func() { gpool.Shutdown(); <-done }
+}
+
+// VerifFanoutPeer puts a peer into the given state ("pending", "connected", "introduced") the way the daemon's event handlers
+// do (Connections.pending / connected / introduced) and, from "connected" on, registers its gnet connection record.
+func VerifFanoutPeer(dm *Daemon, addr string, state string, mirror uint32) (*gnet.Connection, error) {
+	if _, err := dm.connections.pending(addr); err != nil {
+		return nil, err
+	}
+	if state == "pending" {
+		return nil, nil
+	}
+	gc, err := gnet.VerifAddConnection(dm.pool.Pool, addr, true)
+	if err != nil {
+		return nil, err
+	}
+	if _, err := dm.connections.connected(addr, gc.ID); err != nil {
+		return nil, err
+	}
+	if state == "connected" {
+		return gc, nil
+	}
+	_, err = dm.connections.introduced(addr, gc.ID, &IntroductionMessage{Mirror: mirror, ListenPort: 6000, ProtocolVersion: 2})
+	return gc, err
+}
+
+// VerifDaemonProcessGiveBlocks runs the real handler of a received GiveBlocksMessage on the real Daemon.
+func VerifDaemonProcessGiveBlocks(dm *Daemon, blocks []coin.SignedBlock) {
+	m := &GiveBlocksMessage{Blocks: blocks}
+	m.process(dm)
+}
+
+// VerifRequestBlocks is what the daemon's block-request ticker does.
+func VerifRequestBlocks(dm *Daemon) error { return dm.requestBlocks() }
